@@ -13,6 +13,7 @@
 #include <sys/wait.h>
 #include <unistd.h>
 
+#include <cstring>
 #include <fstream>
 #include <new>
 
@@ -95,9 +96,15 @@ static void RunInput(const std::string &path, const std::string &role, const std
       char ctx[240];
       snprintf(ctx, sizeof ctx, "input %s flags %d handler %s path mem", name.c_str(), flags, h);
       nlc::Ctx(ctx);
+      // the in-memory input lives in an exactly sized heap block (bytes + the terminating NUL): a read of even one
+      // byte behind the terminator is a heap-buffer-overflow for ASan (a std::string's capacity slack would hide it)
+      char *exact = (char *)malloc(data.size() + 1);
+      memcpy(exact, data.data(), data.size());
+      exact[data.size()] = 0;
       std::string a = Observe(h, [&](auto &handler) {
-        mp::ReadNLString(mp::NLStringRef(data.c_str(), data.size()), handler, path, flags);
+        mp::ReadNLString(mp::NLStringRef(exact, data.size()), handler, path, flags);
       }, lines, size);
+      free(exact);
       snprintf(ctx, sizeof ctx, "input %s flags %d handler %s path file", name.c_str(), flags, h);
       nlc::Ctx(ctx);
       std::string b = Observe(h, [&](auto &handler) { mp::ReadNLFile(path, handler, flags); }, lines, size);
